@@ -2,8 +2,9 @@ import Solvor.Common.Proto
 import Solvor.Mst.Model
 /-! Mst: line-protocol handler.
 
-request `["kruskal", n, edges, allowForest, implSol|null]`
+request `["kruskal", n, edges, allowForest|null, implSol|null]`
   edges   : list of `[u, v, w]` (weights scaled to integers by the harness)
+  allowForest : `null` = keyword not passed: the default read from the source (`Gen.Mst.kruskalAllowForest`)
   implSol : the edge list returned by the implementation (same encoding) or `null`
 reply `[status, sol|null, obj|null, iters, ufSame, connected, comps, brute|null, valid, implChk]`
   status/sol/obj/iters : the mirror `kruskal`
@@ -57,8 +58,9 @@ def reply (r : Result) (ufSame : Bool) (n : Nat) (E : List Edge) (impl : Option 
 def handle (line : String) : String :=
   match request line with
   | some ("kruskal", [n, edges, af, impl]) =>
-    match n.toNat?, toEdges? edges, af.toBool?, impl.toOpt? toEdges? with
+    match n.toNat?, toEdges? edges, af.toOpt? Val.toBool?, impl.toOpt? toEdges? with
     | some n, some E, some af, some impl =>
+      let af := af.getD Solvor.Gen.Mst.kruskalAllowForest
       let r := kruskal n E af
       reply r (decide (kruskalUF n E af = r)) n E impl
     | _, _, _, _ => err "bad arguments"
